@@ -45,6 +45,7 @@ def run_case(c):
                                  .cross_correlation(tau_max=0, lag_mode="all")[0]))
     put("tsonis", lambda: enc.arr(_climate("TsonisClimateNetwork", data).correlation()))
     put("spearman", lambda: enc.arr(_climate("SpearmanClimateNetwork", data).similarity_measure()))
+    put("partial", lambda: enc.arr(_climate("PartialCorrelationClimateNetwork", data).similarity_measure()))
     # Derive: positive affine map of every series, and a reordering of the series
     aff = data * np.array([2.0, 0.5, 3.0])[None, :] + np.array([1.0, -4.0, 0.25])[None, :]
     put("all_aff", lambda: enc.arr(CouplingAnalysis(aff, silence_level=3).cross_correlation(tau_max=tm, lag_mode="all")))
@@ -62,7 +63,7 @@ def run_case(c):
     if max(orig.max(), surr.max()) > min(orig.min(), surr.min()):
         put("tmi2", lambda: enc.arr(Surrogates.test_mutual_information(orig.copy(), surr.copy(), n_bins=2)))
         put("tmi4", lambda: enc.arr(Surrogates.test_mutual_information(orig.copy(), surr.copy(), n_bins=4)))
-    for key in ("tpear", "tmi2", "tmi4"):
+    for key in ("tpear", "tmi2", "tmi4", "partial"):
         o.setdefault(key, [[0] * 3] * 3)
     for key in ("all", "maxv", "maxl", "symv", "syml", "gauss", "pure0", "tsonis", "spearman", "all_aff", "all_perm"):
         o.setdefault(key, [])
